@@ -186,3 +186,109 @@ func VH_C11_hardlinks() {
 	}
 	v.Cover("done")
 }
+
+// VH_C11_send: the same views sent with the real Send (which applies the hard-link reset itself):
+// a reference receiver accepts the STAT stream with fresh order and hard-link validators, requests
+// every regular non-link entry and gets exactly the bytes of that entry's group; the transfer
+// ends with the FIN handshake. Names include one starting with a dot.
+func VH_C11_send() {
+	paths := []string{".a", "b", "d", "d/e", "f"}
+	isDir := map[string]bool{"d": true}
+	t := &treeFS{}
+	firstOf := map[int]string{}
+	dataOf := map[string][]byte{}
+	ng := 0
+	for _, p := range paths {
+		e := &treeEnt{path: p, isDir: isDir[p]}
+		if !e.isDir {
+			g := v.Choose("group", ng+1)
+			if g == ng {
+				ng++
+				firstOf[g] = p
+				e.data = v.Bytes("data", 1)
+			} else {
+				e.link = firstOf[g]
+				for _, o := range t.ents {
+					if o.path == firstOf[g] {
+						e.data = o.data // every name of the inode opens to the same bytes
+					}
+				}
+			}
+			dataOf[p] = e.data
+		}
+		t.ents = append(t.ents, e)
+	}
+	hidden := map[string]bool{}
+	for _, p := range paths {
+		if !isDir[p] && v.Bool("hide") {
+			hidden[p] = true
+		}
+	}
+	ctx := context.Background()
+	snd, rcv := newStreamPair(ctx, 256)
+	var sendErr error
+	done := make(chan struct{})
+	go func() {
+		sendErr = Send(ctx, snd, &hidingFS{fs: t, hidden: hidden}, nil)
+		snd.CloseSend()
+		close(done)
+	}()
+	var ov Validator
+	var hv Hardlinks
+	var stats []*types.Stat
+	for {
+		var p types.Packet
+		if err := rcv.RecvMsg(&p); err != nil {
+			v.Assert(false, "stream ended before the end-of-stats marker")
+			return
+		}
+		if p.Stat == nil {
+			break
+		}
+		st := p.Stat
+		fi := &StatInfo{st}
+		v.Assert(!hidden[st.Path], "a hidden entry is not announced")
+		v.Assert(ov.HandleChange(ChangeKindAdd, st.Path, fi, nil) == nil, "the announced stream is ordered and parent closed")
+		v.Assert(hv.HandleChange(ChangeKindAdd, st.Path, fi, nil) == nil, "every announced hard link names an announced entry")
+		stats = append(stats, st)
+	}
+	nVisible := 0
+	for _, p := range paths {
+		if !hidden[p] {
+			nVisible++
+		}
+	}
+	v.Assert(len(stats) == nVisible, "exactly the visible entries are announced")
+	for id, st := range stats {
+		if os.FileMode(st.Mode)&os.ModeType != 0 || st.Linkname != "" {
+			continue
+		}
+		v.Cover("requested")
+		if err := rcv.SendMsg(&types.Packet{Type: types.PACKET_REQ, ID: uint32(id)}); err != nil {
+			return
+		}
+		var got []byte
+		for {
+			var p types.Packet
+			if err := rcv.RecvMsg(&p); err != nil {
+				v.Assert(false, "stream ended inside a file transfer")
+				return
+			}
+			v.Assert(p.Type == types.PACKET_DATA && p.ID == uint32(id), "DATA packets carry the requested id")
+			if len(p.Data) == 0 {
+				break
+			}
+			got = append(got, p.Data...)
+		}
+		v.Assert(string(got) == string(dataOf[st.Path]), "a visible regular entry (promoted or not) is delivered with the bytes of its group")
+	}
+	if err := rcv.SendMsg(&types.Packet{Type: types.PACKET_FIN}); err != nil {
+		return
+	}
+	var p types.Packet
+	err := rcv.RecvMsg(&p)
+	v.Assert(err == nil && p.Type == types.PACKET_FIN, "FIN is echoed")
+	<-done
+	v.Assert(sendErr == nil, "the transfer of a filtered view succeeds")
+	v.Cover("done")
+}
